@@ -296,6 +296,13 @@ def _under_caller_contexts(fn, args, first):
             except Exception:
                 continue
         if k != k0:
+            # stateful caller objects (one-shot failures, counters) make two
+            # calls differ without any context: the default context again
+            try:
+                if _outcome_key(call(fn, *args)) != k0:
+                    return None
+            except Exception:
+                return None
             CALLER_CONTEXTS[1] += 1
             return o
     return None
